@@ -224,7 +224,18 @@ impl KnownWord {
     #[must_use]
     pub fn exp(self, rhs: Self) -> Self {
         // The operation takes place in native endianness, which in our case is LE
-        KnownWord::from_le(self.value.wrapping_pow(rhs.value.as_u32()))
+        // Square-and-multiply over the full 256-bit exponent, as truncating it to 32 bits changes the result
+        let mut base = self.value;
+        let mut exponent = rhs.value;
+        let mut result = U256::ONE;
+        while exponent != U256::ZERO {
+            if exponent & U256::ONE == U256::ONE {
+                result = result.wrapping_mul(base);
+            }
+            base = base.wrapping_mul(base);
+            exponent >>= 1u32;
+        }
+        KnownWord::from_le(result)
     }
 
     /// Computes less-than of two known words.
